@@ -19,6 +19,7 @@ import (
 	"syscall"
 	"testing"
 	"time"
+	"unsafe"
 )
 
 const vC07Max = 65536
@@ -28,6 +29,7 @@ type vC07Dec struct {
 	run  func(b []byte) bool  // calls the entry point; true = it returned an error
 	gen  func(r *vRng) []byte // a valid or nearly valid input (nil: none)
 	max  int                  // largest input (0 = vC07Max)
+	thoroughOnly bool
 	sweep int                 // > 0: not fuzzed but run on ALL inputs of exactly this many bytes (enum helpers without a model)
 }
 
@@ -35,6 +37,9 @@ type vC07Helper struct {
 	name   string
 	widths []int // bit width per integer argument (0 = int: sampled, not swept)
 	call   func(a []int64) vSx
+	// helpers over one byte-slice argument: case (1 x<name> x<bytes>), inputs listed by [inputs]
+	callB  func(b []byte) []vSx
+	inputs func(r *vRng) [][]byte
 }
 
 type vC07Fam struct {
@@ -173,17 +178,21 @@ func minInt(a, b int) int {
 
 func vC07Size(r *vRng, max int) int {
 	var n int
-	switch r.intn(20) {
-	case 0:
+	switch r.intn(40) {
+	case 0, 1:
 		n = r.intn(4)
-	case 1:
-		n = max - r.intn(3)
 	case 2:
-		n = r.rng(4096, max)
-	case 3, 4:
+		if r.chance(1, 2) {
+			n = max - r.intn(3)
+		} else {
+			n = r.rng(4096, max)
+		}
+	case 3:
+		n = r.rng(1024, 8192)
+	case 4, 5, 6, 7:
 		n = r.rng(256, 4096)
-	case 5:
-		n = r.pickInt(127, 128, 129, 255, 256, 257, 65535, 65536, 16383, 16384)
+	case 8, 9:
+		n = r.pickInt(127, 128, 129, 255, 256, 257, 65535, 65536, 16383, 16384, 300, 1000, 4095, 4096, 4097)
 	default:
 		n = r.intn(256)
 	}
@@ -245,12 +254,13 @@ func vC07Input(r *vRng, d *vC07Dec) ([]byte, string) {
 	return b, kind
 }
 
+// CPU time of the calling thread (CLOCK_THREAD_CPUTIME_ID), nanosecond resolution
 func vC07CPU() time.Duration {
-	var ru syscall.Rusage
-	if err := syscall.Getrusage(1 /* RUSAGE_THREAD */, &ru); err != nil {
+	var ts syscall.Timespec
+	if _, _, e := syscall.Syscall(syscall.SYS_CLOCK_GETTIME, 3, uintptr(unsafe.Pointer(&ts)), 0); e != 0 {
 		return time.Duration(time.Now().UnixNano())
 	}
-	return time.Duration(ru.Utime.Sec+ru.Stime.Sec)*time.Second + time.Duration(ru.Utime.Usec+ru.Stime.Usec)*time.Microsecond
+	return time.Duration(ts.Sec)*time.Second + time.Duration(ts.Nsec)
 }
 
 // median of 5 thread-CPU-time measurements of one decoder call
@@ -266,7 +276,8 @@ func vC07Time(d *vC07Dec, b []byte) time.Duration {
 			d.run(in)
 		}()
 		ts = append(ts, vC07CPU()-t0)
-		if ts[len(ts)-1] > 3*time.Second && i >= 2 {
+		// slow calls are not repeated five times: noise is irrelevant at that scale
+		if last := ts[len(ts)-1]; last > 500*time.Millisecond || (last > 100*time.Millisecond && i >= 2) {
 			break
 		}
 	}
@@ -338,8 +349,35 @@ func (dr *vC07Driver) runHelper(h *vC07Helper, args []int64) {
 	}
 }
 
+func (dr *vC07Driver) runHelperB(h *vC07Helper, b []byte) {
+	k := dr.k
+	c := vL(vZ(1), vS(h.name), vB(b))
+	msg := ""
+	obs := func() (o vSx) {
+		defer func() {
+			if r := recover(); r != nil {
+				msg = fmt.Sprint(r) + " @ " + vC07StackTop()
+				o = vPanicObs()
+			}
+		}()
+		return vOk(h.callB(b)...)
+	}()
+	idx := k.record(c, obs, true)
+	k.count("helper", h.name)
+	if msg != "" {
+		k.fail(idx, len(b), "never-panics", "", fmt.Sprintf("%s: panic: %s", h.name, msg))
+	}
+}
+
 func (dr *vC07Driver) sweepHelper(h *vC07Helper) {
 	k := dr.k
+	if h.callB != nil {
+		for _, b := range h.inputs(k.rnd) {
+			dr.runHelperB(h, b)
+		}
+		return
+	}
+	quick2 := len(h.widths) == 2 && !k.thorough()
 	var rec func(i int, args []int64)
 	rec = func(i int, args []int64) {
 		if i == len(h.widths) {
@@ -347,6 +385,13 @@ func (dr *vC07Driver) sweepHelper(h *vC07Helper) {
 			return
 		}
 		w := h.widths[i]
+		if w > 0 && quick2 && i == 0 {
+			// quick tier: the old receiver value of a two-argument setter is sampled, the argument swept
+			for _, v := range []int64{0, 1, 3, 48, int64(1)<<uint(w) - 1, int64(k.rnd.intn(1 << uint(w)))} {
+				rec(i+1, append(args, v))
+			}
+			return
+		}
 		if w > 0 {
 			for v := int64(0); v < int64(1)<<uint(w); v++ {
 				rec(i+1, append(args, v))
@@ -419,7 +464,11 @@ func (dr *vC07Driver) replay(c vSx) {
 		}
 	case 1:
 		for _, h := range dr.helpers {
-			if h.name == name && len(c.l) == 2+len(h.widths) {
+			if h.name == name && h.callB != nil && len(c.l) == 3 && c.l[2].isBytes() {
+				dr.runHelperB(h, c.l[2].b)
+				return
+			}
+			if h.name == name && h.callB == nil && len(c.l) == 2+len(h.widths) {
 				var args []int64
 				for _, a := range c.l[2:] {
 					args = append(args, a.i64())
@@ -450,11 +499,16 @@ func vC07Drive(t *testing.T, decs []*vC07Dec, helpers []*vC07Helper, fams []*vC0
 	for _, c := range k.corpus() {
 		dr.replay(c)
 	}
+	dr.generate(quickN, thoroughN)
+}
+
+func (dr *vC07Driver) generate(quickN, thoroughN int) {
+	k, decs, helpers, fams := dr.k, dr.decs, dr.helpers, dr.fams
 	for _, h := range helpers {
 		dr.sweepHelper(h)
 	}
 	for _, d := range decs {
-		if d.sweep > 0 {
+		if d.sweep > 0 && (!d.thoroughOnly || k.thorough()) {
 			for v := 0; v < 1<<uint(8*d.sweep); v++ {
 				b := make([]byte, d.sweep)
 				for j := 0; j < d.sweep; j++ {
